@@ -19,6 +19,15 @@ for _c in CONTRACTS:
     elif _c.qual.endswith(("marginal_ln_likelihood_worker", "make_full_samples_worker", "marginal_ln_likelihood_helper", "make_full_samples")):
         _c.callees = dict(W.CHAIN_CALLEES)
 LIB = filemodel.install_repo_models(dict(W.LIB))
+# prior draws: one joint pm.draw on the handed generator and nothing else (JokerPrior.sample, contract shared with C09)
+from . import c09 as _C09   # noqa: E402
+from jvc.symexec import Contract as _Contract   # noqa: E402
+for _c in _C09.sample:
+    _k = "one-joint-draw-on-the-handed-generator-and-no-other"
+    _c2 = _Contract(_c.qual, PROPERTY, _c.params, _c.requires, {_k: _c.ensures[_k]}, _c.invariants, _c.defs, _c.cases, _c.result, _c.cover)
+    _c2.callees = _c.callees
+    _c2.lib = dict(_C09.LIB)
+    CONTRACTS.append(_c2)
 
 
 def EXTRA():
